@@ -620,10 +620,19 @@ fn execute_write_in_txn(
     }
     let prepared = prepare(cypher).map_err(|e| ApiError::from_query_message(&e.to_string()))?;
     let snapshot = db.snapshot();
-    let (_rows, write_count) = prepared
-        .execute_mixed(&snapshot, txn, params)
-        .map_err(|e| ApiError::from_query_message(&e.to_string()))?;
-    Ok(write_count)
+    // A statement that fails must leave nothing in the transaction buffer: the caller may
+    // still commit the transaction.
+    txn.end_statement();
+    match prepared.execute_mixed(&snapshot, txn, params) {
+        Ok((_rows, write_count)) => {
+            txn.end_statement();
+            Ok(write_count)
+        }
+        Err(e) => {
+            txn.abort_statement();
+            Err(ApiError::from_query_message(&e.to_string()))
+        }
+    }
 }
 
 fn stmt_execute_if_needed(stmt: &mut StmtHandle) -> ApiResult<()> {
